@@ -70,13 +70,49 @@ def model_family(chk, fam, L, workers, grow_extra="{}"):
 
 
 def run_driver(chk, bindir, cases, tag):
+    """runs the real helpers on every case.  A crash of the code under test (signal) is data: the
+    case gets a "crashed" outcome and the run resumes behind it."""
     path = os.path.join(chk.work, "cases_%s.ndjson" % tag)
     core.write_ndjson(path, cases)
-    p = core.run_cmd([os.path.join(bindir, "iohelp"), "run", path], timeout=1800)
-    outs = [json.loads(l) for l in p.stdout.splitlines() if l.strip()]
-    if len(outs) != len(cases) or any(o["i"] != i for i, o in enumerate(outs)):
+    outs = {}
+    skip, flush, crashes = 0, False, 0
+    while True:
+        p = core.run_cmd([os.path.join(bindir, "iohelp"), "run", path, str(skip)], timeout=1800, check=False,
+                         env={"IOHELP_FLUSH": "1"} if flush else None)
+        crashed_at = None
+        for l in p.stdout.splitlines():
+            l = l.strip()
+            if not l:
+                continue
+            try:
+                r = json.loads(l)
+            except ValueError:
+                continue            # a line cut off by the crash
+            if "crash" in r:
+                crashed_at = r["crash"]
+            elif "i" in r:
+                outs[r["i"]] = r
+        if p.returncode == 0:
+            break
+        missing = [i for i in range(len(cases)) if i not in outs]
+        if not missing:
+            break
+        first = missing[0]
+        if flush and (crashed_at is None or crashed_at == first):
+            crashes += 1
+            if crashes > 200:
+                # the code under test crashes all over the place: the verdict is clear, stop executing
+                for i in missing[1:]:
+                    outs[i] = None      # not executed
+            outs[first] = {"i": first, "calls": [], "err": -2, "rn": 0, "buf": [], "pos": 0, "cap": 0, "cap_start": 0,
+                           "panic": "crashed (rc=%s%s)" % (p.returncode, ", signal reported by the driver" if crashed_at is not None else "")}
+            skip = first + 1
+        else:
+            skip = first
+        flush = True
+    if len(outs) != len(cases):
         raise core.ToolError("iohelp reported %d results for %d cases" % (len(outs), len(cases)))
-    return outs
+    return [outs[i] for i in range(len(cases))]
 
 
 def judge(chk, cases, outs, tag, batch=6000, workers=4, par=2):
@@ -212,16 +248,36 @@ def random_cases(rng, count):
 def run_print(chk, bindir, tier):
     """unix/print.rs: the macros' writer over a pipe with signal-induced short writes / EINTR."""
     rounds = 4 if tier == "quick" else 30
-    p = core.run_cmd([os.path.join(bindir, "iohelp"), "print", str(chk.seed), str(rounds)], timeout=900)
-    recs = [json.loads(l) for l in p.stdout.splitlines() if l.strip()]
-    if not recs:
+    def parse(p):
+        out = []
+        for l in p.stdout.splitlines():
+            try:
+                out.append(json.loads(l))
+            except ValueError:
+                pass
+        return [r for r in out if isinstance(r, dict) and "op" in r]
+
+    p = core.run_cmd([os.path.join(bindir, "iohelp"), "print", str(chk.seed), str(rounds)], timeout=900, check=False)
+    recs = parse(p)
+    if p.returncode != 0:
+        # the code under test brought the driver down (abort / segfault): data, not a tool failure
+        chk.violate({"op": "print", "kind": "crash"},
+                    "the print-macro driver died with rc=%s after %d runs: %s" % (p.returncode, len(recs), p.stderr[-300:].strip()),
+                    {"mode": "print", "record": {"rc": p.returncode}})
+    elif not recs:
         raise core.ToolError("iohelp print produced nothing: " + p.stderr[-500:])
     # the helpers on a File over a kernel pipe, real EINTR / short transfers
-    p = core.run_cmd([os.path.join(bindir, "iohelp"), "pipe", str(chk.seed), str(3 if tier == "quick" else 40)], timeout=1800)
-    precs = [json.loads(l) for l in p.stdout.splitlines() if l.strip()]
-    if not precs:
+    p = core.run_cmd([os.path.join(bindir, "iohelp"), "pipe", str(chk.seed), str(3 if tier == "quick" else 40)], timeout=1800, check=False)
+    precs = parse(p)
+    if p.returncode != 0:
+        chk.violate({"op": "pipe", "kind": "crash"},
+                    "the pipe driver died with rc=%s after %d runs (next: run %d): %s" % (p.returncode, len(precs), len(precs) + 1, p.stderr[-300:].strip()),
+                    {"mode": "pipe", "record": {"rc": p.returncode, "completed_runs": len(precs)}})
+    elif not precs:
         raise core.ToolError("iohelp pipe produced nothing: " + p.stderr[-500:])
     allr = recs + precs
+    if not allr:
+        return []
     path = os.path.join(chk.work, "print_pipe.ndjson")
     core.write_ndjson(path, allr)
     res = core.run_tlc("IoHelpersTrace.tla", "IoHelpersPrint.cfg", workers=1, env={"TRACE": path}, timeout=900,
@@ -280,7 +336,7 @@ def falsify(rng, c, o):
 # ------------------------------------------------------------------------------------------
 def classify(c, o, models):
     if o["panic"]:
-        return "panic"
+        return "crash" if o["panic"].startswith("crashed") else "panic"
     if models:
         m = models[0]
         if m["err"] != o["err"]:
@@ -348,6 +404,15 @@ def _run(chk, tier):
     ngen = len(cases)
     allcases = cases + rcases
     allouts = run_driver(chk, bindir, allcases, "all")
+    if any(o is None for o in allouts):
+        # the driver crashed on more than 200 cases and the rest was not executed: judge what was run
+        keep = [i for i, o in enumerate(allouts) if o is not None]
+        chk.extra["cases_not_executed_after_200_crashes"] = len(allouts) - len(keep)
+        cases = [allcases[i] for i in keep if i < ngen]
+        rcases = [allcases[i] for i in keep if i >= ngen]
+        allouts = [allouts[i] for i in keep]
+        ngen = len(cases)
+        allcases = cases + rcases
     outs, routs = allouts[:ngen], allouts[ngen:]
     core.log("driver done (%.1fs)" % (time.time() - chk.t0))
     # 3. TLC judges the recorded runs
